@@ -751,8 +751,17 @@ def c13(tier, seed):
             out.append(c)
         s["configs"] = out
         scns.append(s)
+    # squared weights on a response whose weighted counts EQUAL its unweighted counts cell for
+    # cell (weights of 1/2 and 3/2 in pairs): the library then regards the cube as unweighted,
+    # but the effective base (sum w)^2 / sum w^2 still differs from N.  Every bag of <= 6
+    # respondents (quick: <= 5 + the balanced bags by simulation would be too rare).
+    bal = C.fractional([scenario("cat2_x_cat2.sq.bal", [cat("A", 2), cat("B", 2)],
+                                 squared_weights=True)], wden=2, weights=(1, 3))
+    bal_jobs = _value_jobs("C13", "c13", bal, tier, seed, single_pass=True,
+                           invariants=("EmitInv", "ThmPwAntisym"),
+                           bfs_budget=3100, sim_budget=50, sim_extra=1)
     return dict(
-        jobs=_value_jobs("C13", "c13", scns, tier, seed, single_pass=True,
+        jobs=bal_jobs + _value_jobs("C13", "c13", scns, tier, seed, single_pass=True,
                          invariants=("EmitInv", "ThmPwAntisym"),
                          bfs_budget=700 if tier == "quick" else 8000,
                          sim_budget=300 if tier == "quick" else 5000, sim_extra=2,
